@@ -159,8 +159,9 @@ func (v *inputFieldDefaultInjectionVisitor) processObjectOrListInput(fieldType i
 	fieldIsList := typeDoc.TypeIsList(fieldType)
 	varVal, valType, _, err := jsonparser.Get(defaultValue)
 	if err != nil {
-		return nil, false, err
-
+		// not an object or list (e.g. the content of a string): nothing to inject,
+		// mismatching types are handled by variablesvalidation package
+		return defaultValue, false, nil
 	}
 	node, found := v.definition.Index.FirstNodeByNameBytes(typeDoc.ResolveTypeNameBytes(fieldType))
 	if !found {
